@@ -250,7 +250,8 @@ def mutator_recipes(w: P.World) -> dict[str, tuple]:
         "orchestrator.increment_invocation_retries": (i0,),
         "orchestrator.register_runner_heartbeats": (["rSens"], True),
         "orchestrator.set_invocation_status": (w.inv[-1], S.PENDING, r),
-        "orchestrator.waiting_for_results": (w.inv[-1], [i0]),
+        # (an awaited invocation that is still open: a wait declared on a finished one is, rightly, not recorded)
+        "orchestrator.waiting_for_results": (w.inv[-1], [next((i for i in w.inv[:-1] if not w.app.orchestrator.get_invocation_status(i).is_final()), i0)]),
         "state_backend.store_runner_context": (r,),
         "state_backend.set_result": (i0, {"sens": 1}),
         "state_backend.set_workflow_data": (w.invobj[i0].workflow, "sens", 1),
@@ -336,6 +337,7 @@ def run(ctx: Ctx) -> None:
         _classification(ctx, drv)
         _queue_correspondence(ctx, drv, mon)
         _queue_faults(ctx, drv, mon)
+        _overlapping_queue_pages(ctx, mon)
         _post_sensitivity(ctx, mon, post_routes, static)
         _fresh_monitor(ctx, mon, get_routes)
     finally:
@@ -768,6 +770,68 @@ def _queue_faults(ctx: Ctx, drv: LeanDriver, mon: Monitor) -> None:
                     nd += 1
                     first = first or f"[{kind}] {nmsg} queued, fault at retrieve #{k + 1}: impl HTTP {resp.status_code} queue {i_q[:80]} / model {outs[-1][:80]}"
     ctx.obligation(f"correspondence: GET /broker/queue with a broker fault after k pops == Monitor.queueViewFault ({n} requests, mem + sqlite)", nd == 0, first)
+
+
+def _overlapping_queue_pages(ctx: Ctx, mon: Monitor) -> None:
+    """two monitor users open the queue page at the same time (one event loop, as uvicorn serves them).  The page drains the
+    queue and routes everything back; if two requests could be inside that at once they would re-order it.  A rendezvous in the
+    broker's pop waits for a second request to arrive inside the first one's drain - it never does while the handler keeps the
+    event loop (the wait then simply times out)."""
+    import asyncio
+    import threading
+
+    import httpx
+
+    n = 0
+    for kind in ("mem", "sqlite"):
+        for nmsg, limit in (((6, 3),) if ctx.quick else ((2, 1), (6, 3), (9, 100))):
+            w = P.World(kind, ctx.tmp, tag="qo")
+            for j in range(nmsg):
+                w.apply(["call", "add", [j, 1]])
+            mon.point_at(w.app)
+            before = P.readout(w)
+            broker = w.app.broker
+            orig = broker.retrieve_invocation
+            lock, other_arrived, st = threading.Lock(), threading.Event(), {"pops": 0}
+
+            def pop(orig=orig, st=st):  # type: ignore[no-untyped-def]
+                with lock:
+                    st["pops"] += 1
+                    k = st["pops"]
+                r = orig()
+                if k == 1:
+                    other_arrived.wait(0.4)        # first pop of the first request: is another request popping too?
+                elif k == 2 and not other_arrived.is_set():
+                    pass
+                if threading.current_thread() is not st.get("first"):
+                    other_arrived.set()
+                return r
+
+            def pop_marking(orig=pop, st=st):  # type: ignore[no-untyped-def]
+                st.setdefault("first", threading.current_thread())
+                return orig()
+
+            broker.retrieve_invocation = pop_marking  # type: ignore[method-assign]
+
+            async def both():
+                tr_ = httpx.ASGITransport(app=mon.app)
+                async with httpx.AsyncClient(transport=tr_, base_url="http://testserver") as c:
+                    return await asyncio.gather(c.get(f"/broker/queue?limit={limit}"), c.get(f"/broker/queue?limit={limit}"))
+
+            try:
+                resps = asyncio.run(both())
+            finally:
+                del broker.retrieve_invocation
+            after = P.readout(w)
+            n += 1
+            ctx.count()
+            ctx.distinct((kind, "overlapping-queue-pages", nmsg, limit))
+            d = judge(before, after)
+            if d:
+                ctx.report("get-mutates:pynmon.views.broker.queue_view:two-requests-at-once",
+                           f"[{kind}] two GET /broker/queue?limit={limit} requests served at the same time on {nmsg} queued messages (HTTP {[r.status_code for r in resps]}) changed the monitored system: "
+                           + "; ".join(d[:3]), {"kind": kind, "family": "overlapping-queue-pages", "messages": nmsg, "limit": limit})
+    ctx.notes["overlapping_queue_pages"] = n
 
 
 def _has_record(app, i: str) -> bool:
